@@ -433,6 +433,7 @@ def memo_keys(ctx, rule, files):
                 ctx.fail(rule, fi, f"memo-slot-omits:{par}",
                          f"{fi.qual}: the result is remembered in the single slot `{attr_}` (returned as is when already set), but what is stored depends on the parameter `{par}`: "
                          f"a later call with another `{par}` is served the first call's result", node=node)
+        if True:  # nested functions too: a closure-held dict outlives the call of the inner function
             for node, cont, key, par in memokey.param_omitted(effects.engine(ctx.program).fx(fi)):
                 ctx.fail(rule, fi, f"memo-key-omits:{par}",
                          f"{fi.qual}: results are remembered in `{cont}` under `{key}`, but what is stored also depends on the parameter `{par}`, which is not part of the key: "
